@@ -693,6 +693,10 @@ class Runner:
             for v in old_registered:
                 if not self.step(['reg', v]):
                     return False
+                if getattr(self.views[v], '_raw_wrapper', scn.raw) is not scn.raw:
+                    self.fail(self.sig_view, f'after {scn.name}.{scn.attr} was reassigned, the model still serves the '
+                                             f'view {v} built on the replaced wrapper')
+                    return False
         finally:
             self.sig_view = 'C10:view-differs-from-filtered-raw'
         return True
